@@ -34,7 +34,7 @@ def cases(tier, seed):
     sets = SETTINGS[:2] if tier == "quick" else SETTINGS
     out = []
     for p in base:
-        for i, st in enumerate(sets):
+        for i, st in enumerate(sets if p.get("ctx") in ("def", "pair_struct", "pair_ext") or tier == "quick" else sets[:2]):
             out.append(dict(p, id="%s#s%d" % (p["id"], i), settings=st))
     out += impl_family()
     return out
